@@ -26,7 +26,7 @@ var Specs = map[string]*sim.Spec{
 	"C09": {Sim: "valsim", GenConfig: genConfig("C09"), Run: run("C09"), Real: realCommon, Stub: stubCommon,
 		Rule: "Same world and step kinds as C08 (without the decoder half and the ValidateSSVMessage entry). Oracle 1: every ACCEPTED gossip message is judged by a reference predicate written from the statement (own validator / operator-key tables, own topic, leader, quorum and window arithmetic, stdlib RSA, own per-(validator, role, signer) record updated with every accepted consensus message); windows wider than the implementation's: slot <= 2 early, <= 8 / 48 late; round 1..16 and <= elapsed-time estimate + 3. Oracle 2: before every honest message is gossiped, up to 32 single-rule mutants of it (topic, 4 validator states, 6 envelope faults, signer order / duplicate / zero / non-member / count, leader, full-data hash, slot window incl. a slot whose start time wraps around, round window, partial-signature slot and signer) and after its acceptance 6 history mutants (replay, same type other root, slot back, decided slot back, round back, second proposal with other data) are gossiped with correctly re-signed envelopes; a mutant that the reference confirms as rule-breaking must not be accepted. Step mask selects the mutants (all of them in 25% of the pumps, a random quarter or eighth otherwise). Non-trivial: >= 6 honest messages accepted.",
 		Assumptions: []string{
-			"regime C (concurrent validation of the same / different validators) is NOT simulated: an earlier lock-aware scheduler hung under several Ps; the 'schedules' part of the quantifier is therefore not covered",
+			"concurrent validation (pair steps, about one gossip in eight once envelopes are active): two messages - an honest one with a verbatim copy, with a same-signer same-round other-root message, or with the next honest message - are validated by two goroutines that park at the only storage call inside validation (operator-key lookup on a cold key cache, which lies between the per-signer check and update); a lock-aware scheduler interleaves them from the step's sub-seed; at most one of a conflicting pair may be accepted. Interleavings at other points (no seam there) are not controlled",
 			"topics are judged only among the 128 topic names pubsub can deliver on; acceptance on a string pubsub never delivers on is a diagnostic probe",
 			"in the epoch equal to PermissionlessActivationEpoch the statement does not say whether envelopes are required; the reference does not judge the envelope there",
 			"'one commit per signer per round' is applied to single-signer commits; quorum-sized (decided) commits are not counted per signer but must not go back in slot or round for any signer",
